@@ -50,6 +50,7 @@ class Harness:
         self.wfd = wfd
         self.tmp_suffix = ".{}-{}.tmp".format(os.getpid(), __import__("threading").get_ident())
         self.report = {"pid": os.getpid()}
+        self.active = True
 
     def fname(self, path):
         path = os.fspath(path)
@@ -81,6 +82,8 @@ class Harness:
 
     def effect(self, e, cleanup=False, writer=None, data=None):
         """log effect e, return the fault that hits it (crashes do not return)"""
+        if not self.active:
+            return ["n"]
         if cleanup:
             fk = self.fc
         else:
@@ -361,6 +364,7 @@ def run_sdk(case):
                 except BaseException as e:   # noqa
                     H.report["outcome"] = [1, L.exc_code(e)]
                     H.report["exc"] = "{}: {}".format(type(e).__name__, e)[:200]
+                H.active = False
                 uninstall()
                 del cstore.generate_source
                 H.report["marks"] = [1 if obj.id in cstore._object_cache else 0,
@@ -434,8 +438,7 @@ def run_sdk(case):
                 kindf = "none"
                 for i, fk in enumerate(case["F"]):
                     if fk[0] != "n":
-                        eff = EFFECTS[case["op"]][i] if i < len(EFFECTS[case["op"]]) else "?"
-                        kindf = {"r": "raise", "c": "crash"}[fk[0]] + "@" + eff
+                        kindf = {"r": "exception-injected", "c": "process-dies"}[fk[0]]
                         break
                 pk = "bad-payload" if bad else "good-payload"
                 fail = ("C15:{}:{}:{}:{}".format(case["op"], pk, kindf, what), msg)
@@ -608,6 +611,24 @@ def core_cases():
     return res
 
 
+def check_prefix_assumption(chk):
+    """trusted assumption of the model: no strict prefix of a serialised document parses"""
+    from basyx.aas.adapter.json import json_serialization, json_deserialization
+    n = 0
+    for kind in L.GOOD_KINDS:
+        text = json.dumps({"data": L.make_object(kind, L.IDS[1], 3)}, cls=json_serialization.AASToJsonEncoder, indent=4)
+        cuts = range(len(text)) if len(text) < 3000 else list(range(0, len(text), 97)) + list(range(len(text) - 60, len(text)))
+        for c in cuts:
+            n += 1
+            try:
+                json.loads(text[:c], cls=json_deserialization.AASFromJsonDecoder)
+            except ValueError:
+                continue
+            chk.tie_broken("assumption-prefix-parses", {"kind": kind, "cut": c, "len": len(text)})
+            return n
+    return n
+
+
 def shrink(case, pred):
     cur = dict(case)
     for simpler in ({"others": []}, {"extra": []}, {"stale_tmp": None}, {"ids": 0}):
@@ -634,14 +655,16 @@ def run(chk):
     ncore = len(cases)
     for _ in range(350 if chk.tier == "quick" else 5000):
         cases.append(gen_random_case(rng))
-    terms, results = [], []
+    terms = []
     for case in cases:
         case["others"] = [tuple(o) for o in case["others"]]
         case["extra"] = [tuple(o) for o in case["extra"]]
         if case["pre"] is not None:
             case["pre"] = tuple(case["pre"])
-        res = run_sdk(case)
-        results.append(res)
+    import multiprocessing
+    with multiprocessing.get_context("fork").Pool(8) as pool:   # cases are independent; results keep their order
+        results = pool.map(run_sdk, cases, chunksize=8)
+    for case, res in zip(cases, results):
         hit = [i for i, fk in enumerate(case["F"]) if fk[0] != "n"]
         chk.seen(case, nontrivial=bool(hit) or case["kind"] in L.BAD_KINDS)
         chk.count("op=" + case["op"])
@@ -685,6 +708,7 @@ def run(chk):
                                           "rows": "outcome; effect trace; [cached, sourced]; directory; per key "
                                                   "contains+get; len; iter"})
     chk.cov["core_fault_points"] = ncore
+    chk.cov["strict_prefixes_checked_unparseable"] = check_prefix_assumption(chk)
     chk.trusted = [
         "Coq 8.16.1 kernel (coqc; vm_compute for the examples/refutations and the correspondence)",
         "hand-written model coq/theories/model/Crash.v, tied to local_file.py by this fault-injection run "
